@@ -1,8 +1,8 @@
 SPECIFICATION Spec
 CONSTANTS
   CID = {"c1", "c2"}
-  EXCH = {"x1"}
-  MaxSends = 2
+  EXCH = {"x1", "x2"}
+  MaxSends = 1
   MaxKills = 1
 INVARIANTS TypeOK AtMostOnce InFlightBacked Routed ConnMatchesLinks
 PROPERTIES Resolved Noticed Synced
